@@ -31,6 +31,9 @@ def run(ctx: Ctx):
     element_id(ctx)
     unknown_refs(ctx)
     element_transform_keys(ctx)
+    from .common import generic_lints
+
+    generic_lints(ctx)
 
 
 def _model(with_insertions: bool, items=None) -> Dict[str, Any]:
